@@ -8,10 +8,15 @@
    with every line number (nested ones included) shifted by the lines that precede B.
    C05_stable_blocks_independent extends this: the blocks before A's closed last block may
    also be indented code, fenced code and HTML blocks (a leaf block after which A goes on
-   has stopped at a line of A).  What remains outside the unbounded theorems is a LIST
-   before the closed last block: those pairs are covered by the kernel sweep
-   (C05_bounded_pairs, bound stated there) and by the oracle on the implementation.  The theorem is about the block phase; with no link definitions
-   the inline phase is applied to each block's own lines. *)
+   has stopped at a line of A).  C05_any_blocks_independent adds LISTS (a list that was
+   ended by a line of A, not by the end of A - the computable flag list_runs_off - cannot
+   see what follows A) and lets the parse start in any state: with it every kind of block
+   may precede A's last block.  What the theorems take as a computable hypothesis
+   (stable_run3) rather than derive is that "A's last block is closed" implies that every
+   earlier leaf block / list was ended inside A; the kernel sweep (C05_bounded_pairs, full
+   statement, bound stated there) and the oracle on the implementation cover that link.
+   The theorems are about the block phase; with no link definitions the inline phase is
+   applied to each block's own lines. *)
 From Coq Require Import ZArith List Bool.
 From Mistletoe Require Import Base.Sx Base.PyStr Base.PyText Gen.GenConfig Model.Tree Model.CoreTokens Model.Block Model.Build
      Model.Parser Proofs.Laws Proofs.Independence Proofs.Independence2 Proofs.IndepP.
@@ -35,6 +40,15 @@ Theorem C05_stable_blocks_independent : forall types f A B,
   map (shift_pre (Z.of_nat (length A) + 1)) (entries (tokenize_block types (S f) B 1 (mkPs true))).
 Proof. exact stable_blocks_independent. Qed.
 Print Assumptions C05_stable_blocks_independent.
+
+Theorem C05_any_blocks_independent : forall types f A B st,
+  no_blankline_kind types = true ->
+  stable_run3 types (tokenize_block types f) (S (length A)) A 1 st = true ->
+  let '(esA, _, stA) := tokenize_block types (S f) A 1 st in
+  entries (tokenize_block types (S f) (A ++ NL :: B) 1 st) =
+  esA ++ map (shift_pre (Z.of_nat (length A) + 1)) (entries (tokenize_block types (S f) B 1 stA)).
+Proof. exact any_blocks_independent. Qed.
+Print Assumptions C05_any_blocks_independent.
 
 (* line numbers derive from the start line alone: tokenizing the same lines from another start line shifts every number *)
 Theorem C05_line_numbers_shift : forall types d f lines ln st,
